@@ -325,7 +325,16 @@ def check_triples_batched(res, triples, timeout_ms=20000, tol=None, tag=""):
             res.ob("unsat" if same else "sat", what, {"kind": "structural", "got": str(got), "want": str(want)})
             continue
         if isinstance(want, (bool, np.bool_, str, tuple, int)) and not isinstance(got, core.Sym) or isinstance(got, (bool, np.bool_, str, tuple)):
-            res.ob("unsat" if got == want else "sat", what, {"kind": "structural", "got": str(got), "want": str(want)})
+            if got == want:
+                res.ob("unsat", what)
+            else:
+                # a witness of the path on which the structural mismatch happened (inputs for the replay)
+                env = {}
+                if ST.pathcond:
+                    v, model, _ = solve.check_sat(list(ST.assumptions) + [core.expand_defs(c) for c in ST.pathcond], timeout_ms=10000)
+                    if v == "sat":
+                        env = solve.model_env(model)
+                res.ob("sat", what, {"kind": "structural", "got": str(got), "want": str(want), "env": env})
             continue
         if got is want or _same_term(got, want):
             solve.STATS.trivial += 1
